@@ -75,6 +75,26 @@ impl FastDivision {
     }
 }
 
+/// Give every symbol that occurs at least one slot of the normalized table.
+///
+/// The first normalization pass hands out slots in symbol order and can run out
+/// before the last symbols are reached (a very frequent low symbol takes them all).
+/// A symbol without a slot cannot be encoded, so it takes one from the symbol
+/// that currently holds the most.
+fn ensure_slot_for_used_symbols(frequencies: &[u32], normalized: &mut [u32]) -> Result<()> {
+    for i in 0..normalized.len().min(frequencies.len()) {
+        if frequencies[i] > 0 && normalized[i] == 0 {
+            let donor = (0..normalized.len()).max_by_key(|&j| normalized[j]).unwrap_or(i);
+            if normalized[donor] < 2 {
+                return Err(ZiporaError::invalid_data("Too many symbols for the normalized table"));
+            }
+            normalized[donor] -= 1;
+            normalized[i] = 1;
+        }
+    }
+    Ok(())
+}
+
 /// Advanced entropy normalization
 #[derive(Debug, Clone)]
 pub struct EntropyNormalizer {
@@ -148,6 +168,8 @@ impl EntropyNormalizer {
             }
         }
         
+        ensure_slot_for_used_symbols(frequencies, &mut normalized)?;
+
         // Distribute remaining frequency to most frequent symbols
         while remaining > 0 {
             let mut max_original_freq = 0;
@@ -499,6 +521,8 @@ impl FseTable {
             }
         }
         
+        ensure_slot_for_used_symbols(frequencies, &mut normalized_freqs)?;
+
         // Distribute remaining entries
         while remaining > 0 {
             let mut max_freq = 0;
